@@ -119,6 +119,9 @@ def oracle(r):
                 handler_calls[o[1]] = handler_calls.get(o[1], 0) + 1
             elif o[0] == "OwnerRaised":
                 crashed = True
+            elif o[0] == "SpawnFailed" and not torn and not crashed:
+                bad.append(("C09:spawn-refused", f"step {i}: the factory refused a task although its owning context is "
+                            f"open and nothing has failed"))
             elif o[0] == "CancelSeen" and s["gate"][0] == "Teardown":
                 bad.append(("C09:teardown-cancelled", f"step {i}: tearing the owner down cancelled task {o[1]}"))
             elif o[0] == "OwnerLeft" and spawned - finished:
